@@ -168,6 +168,9 @@ def ret_not_error_paths(body, start, src_local):
     ret_defs = {}
     for bb, si, kind, payload in body.defs().get(0, []):
         ret_defs.setdefault(bb, []).append((bb, si, kind, payload))
+    # only edges that are feasible for the values known on the way (an error wrapped by a helper's `?` and unwrapped by the
+    # caller's `?` takes the Break edge there): explicit-state search over bool / enum / Result-of-enum locals
+    _, feas = flag_search(body, [start])
     seen = set()
     stack = [(start, None)]
     while stack:
@@ -187,6 +190,8 @@ def ret_not_error_paths(body, start, src_local):
                 return (last[0], "returns %s" % desc)
             continue
         for s2 in body.succ[bb]:
+            if feas is not None and (bb, s2) not in feas:
+                continue
             stack.append((s2, last))
     return None
 
@@ -212,6 +217,10 @@ def rule_r2(facts, col, bodies=None):
                     continue
                 err_t = ws.err_edge[1]
                 r = body.reachable(err_t)
+                if r & wblocks:
+                    # value-sensitive second look (the error may travel through a helper's Result and a second `?`)
+                    r2, _ = flag_search(body, [err_t])
+                    r = set(r2)
                 if r & wblocks:
                     col.bad("C07.R2", key, body.where(bb),
                             "after work() returned Err the runner can call work() again (error arm does not leave the loop)",
@@ -311,10 +320,11 @@ def rule_r4_loops(col, body, key, spawns=(), spawns_in_body=True):
             if comp is None:
                 problems.append("join() is not in a loop over the handles")
                 continue
-            nexts = [b for b in finite_next_blocks(body) if b in comp]
+            from ..runners import finite_pop_blocks
+            nexts = [b for b in finite_next_blocks(body) if b in comp] + finite_pop_blocks(body, comp)
             exits = loop_exits(body, comp)
             for (u, v) in exits:
-                # allowed: the None edge of the iterator
+                # allowed: the None edge of the iterator (or of `pop()` on a Vec nothing is added to in the loop)
                 ok = False
                 tu = body.term(u)
                 if tu["k"] == "switch":
@@ -579,6 +589,8 @@ def rule_r6(facts, col, bodies=None):
             if not slots:
                 col.ok("C07.R6", key, body.where(bb), "no Option<Error> slot: the error is returned directly (judged by C07.R2)")
                 continue
+            # the named variable (`first_err`), not the `Some(e)` temporary that is moved into it
+            slots.sort(key=lambda x: (body.var_name_of_local(x) is None, -len(body.defs().get(x, [])), x))
             slot = slots[0]
             comp = scc_of(body, bb)
             if comp is None:
@@ -586,7 +598,8 @@ def rule_r6(facts, col, bodies=None):
                 continue
             at = _slot_state_search(body, slot, [(err_t, "N"), (err_t, "S")])
             # blocks where the arm is left: back at the loop's iterator / result site or outside the loop
-            nexts = set(finite_next_blocks(body)) & comp
+            from ..runners import finite_pop_blocks
+            nexts = (set(finite_next_blocks(body)) & comp) | set(finite_pop_blocks(body, comp))
             leave = set()
             for b2 in at:
                 if b2 not in comp:
